@@ -471,7 +471,7 @@ class Hist:
 
     def run(s):
         t0 = time.time()
-        lim = Limits(loop=40, rec=40, steps=2000000)
+        lim = Limits(loop=40, rec=40, steps=200000000)       # bounded by the wall-clock deadline instead
         eng = Engine(s.P, s.inst, lim, s.solver, s.on_path, {})
         eng.on_return = s.on_return
         if getattr(s, 'max_s', None):
